@@ -17,6 +17,7 @@ Mechanism names (structural, used to match known findings):
   C15/iterfile-missing-after-best-evaluation           a best-so-far point with finite derivatives was evaluated and there is no file
   C15/iterfile-never-written-after-nan-first-likelihood same, when the first evaluation of the run returned NaN with a finite gradient
   C15/iterfile-removed-by-evaluation                   the call deleted an existing file
+  C15/iterfile-overwritten-by-evaluation-on-resampled-data  the call wrote its point although it was not evaluated on the estimation data
   C15/iterfile-truncated-before-write                  (crash) file left empty / partial
   C15/crash-leaves-unrelated-complete-file             (crash) complete file holding neither the previous nor the current point
 """
@@ -60,12 +61,24 @@ def parse_iter(content: bytes | None, names: list[str]) -> dict:
     values: dict[str, float] = {}
     for line in lines:
         hit = None
+        # the written form '<name> = <float>' first (names may themselves contain ' = ', end with blanks ...):
+        # the longest parameter name followed by ' = ' and something float() accepts
         for n in by_len:
-            if line.startswith(n):
-                m = _VALUE.match(line[len(n):])
-                if m:
-                    hit = (n, m.group(1))
-                    break
+            if line.startswith(n + ' = '):
+                txt = line[len(n) + 3:]
+                try:
+                    float(txt)
+                except ValueError:
+                    continue
+                hit = (n, txt)
+                break
+        if hit is None:
+            for n in by_len:
+                if line.startswith(n):
+                    m = _VALUE.match(line[len(n):])
+                    if m:
+                        hit = (n, m.group(1))
+                        break
         if hit is None:
             out['shape'] = 'line-without-parameter-name'
             out['line'] = line[:120]
@@ -130,13 +143,14 @@ class Scope:
             return 'worse-than-best-not-below-first'
         return 'worse-than-first'
 
-    def step(self, x: dict, f: float, grad_finite: bool, pre: bytes | None, post: bytes | None) -> tuple[list, dict]:
-        """returns (violations [(mech, msg)], info)"""
+    def step(self, x: dict, f: float, grad_finite: bool, pre: bytes | None, post: bytes | None, foreign: bool = False) -> tuple[list, dict]:
+        """returns (violations [(mech, msg)], info). foreign: the value returned is not the likelihood of
+        the estimation data at x (evaluation made on other data, e.g. a bootstrap resample)"""
         names = self.names
         xb = point_bits(x, names)
         f_nan = isinstance(f, float) and math.isnan(f)
         x_finite = all(math.isfinite(v) for v in x.values())
-        cand = bool(grad_finite) and not f_nan and f is not None and x_finite
+        cand = bool(grad_finite) and not f_nan and f is not None and x_finite and not foreign
         kind = self.classify(f, cand)
         if self.n_deriv_calls == 0 and f_nan and grad_finite:
             self.nan_first = True
@@ -167,7 +181,12 @@ class Scope:
             B = point_bits(P['values'], names)
             info['holds_current'] = B == xb
             if B == xb:
-                if not cand:
+                if foreign:
+                    if pre_pt != xb:
+                        viol.append(('C15/iterfile-overwritten-by-evaluation-on-resampled-data',
+                                     f'the evaluation (returned {f!r}) was not made on the estimation data and its point replaced the saved one '
+                                     f'(best on the estimation data so far: {self.best_f!r})'))
+                elif not cand:
                     if f_nan and grad_finite and x_finite:
                         viol.append(('C15/iterfile-holds-point-with-nan-likelihood', 'the file holds the point just evaluated, whose likelihood is NaN'))
                     else:
@@ -202,6 +221,14 @@ class Scope:
             info['invariant'] = bool(holders) and self.best_f is not None and not self.worse(max(p['f'] for p in holders), self.best_f)
         else:
             info['invariant'] = None
+        if getattr(self, 'polluted', False):
+            # the best-so-far marker of the writer holds a value obtained on other data: a better point on the
+            # estimation data that is not written afterwards is the same mechanism, not a new one
+            viol = [(('C15/iterfile-overwritten-by-evaluation-on-resampled-data', 'after a point evaluated on other data was saved: ' + msg)
+                     if mech in ('C15/iterfile-not-updated-by-better-point', 'C15/iterfile-missing-after-best-evaluation') else (mech, msg))
+                    for mech, msg in viol]
+        if any(mech == 'C15/iterfile-overwritten-by-evaluation-on-resampled-data' for mech, _ in viol):
+            self.polluted = True
         if viol:
             self.earlier_violation = True
         return viol, info
@@ -214,7 +241,7 @@ def _first_diff(file_values: dict, x: dict, names: list[str]) -> str:
     return 'no difference with the current point?'
 
 
-def check_crash_state(names, pre: bytes | None, crash: bytes | None, x: dict, update_acceptable: bool) -> tuple[list, dict]:
+def check_crash_state(names, pre: bytes | None, crash: bytes | None, x: dict, update_acceptable: bool, foreign: bool = False) -> tuple[list, dict]:
     """State found by the parent after the process was stopped inside evaluation of x."""
     P = parse_iter(crash, names)
     Q = parse_iter(pre, names)
@@ -233,6 +260,9 @@ def check_crash_state(names, pre: bytes | None, crash: bytes | None, x: dict, up
         return [], info
     if B == point_bits(x, names):
         info['state'] = 'current'
+        if foreign:
+            return [('C15/iterfile-overwritten-by-evaluation-on-resampled-data',
+                     'the stopped process left a complete file holding the point under evaluation, which was not evaluated on the estimation data')], info
         if not update_acceptable:
             return [('C15/iterfile-overwritten-by-worse-point',
                      'the stopped process left a complete file holding the point under evaluation, which is not the best evaluated so far')], info
@@ -289,6 +319,11 @@ def selftest() -> list[str]:
         bad.append('history checker misses a missing file')
     if 'C15/iterfile-holds-point-with-nonfinite-derivatives' not in run(seq, lambda k, xv, f, pre, cur: b'a = 5.0\n' if k == 4 else cur):
         bad.append('history checker misses a saved non-finite point')
+    tricky = ['x', 'x ', 'x = 1', '#x', ' = ']
+    content = 'x = 1.0\nx  = 2.0\nx = 1 = 3.0\n#x = 4.0\n =  = 5.0\n'.encode()
+    P = parse_iter(content, tricky)
+    if not P['ok'] or [P['values'][n] for n in tricky] != [1.0, 2.0, 3.0, 4.0, 5.0]:
+        bad.append(f'reader misreads names containing blanks / "=" / "#": {P}')
     v, _ = check_crash_state(['a'], b'a = 1.0\n', b'', {'a': 2.0}, True)
     if [m for m, _ in v] != ['C15/iterfile-truncated-before-write']:
         bad.append('crash checker accepts an empty file')
